@@ -124,6 +124,17 @@ def run(ck, m):
     ck.need("\x1b" in pos.value, "R2 positive example failed")
     ir = m.get(IT, "ITerm2Image._render_image")
     n_open = 0
+    from tiv.sem import trace
+
+    def _is_bw(c):          # buffer.write(...), directly or through a local alias of the bound method
+        return norm(c.func) == "buffer.write" or (isinstance(c.func, ast.Name) and norm(trace(ir, c.func, use=c, keep=("buffer",))) == "buffer.write")
+
+    def _starts_with_st(e):
+        if isinstance(e, ast.BinOp) and isinstance(e.op, ast.Add):
+            return _starts_with_st(e.left)
+        if isinstance(e, ast.IfExp):
+            return _starts_with_st(e.body) and _starts_with_st(e.orelse)
+        return norm(e) == "ST"
     for n in body_walk(ir):
         if isinstance(n, ast.Tuple) and any(norm(e) == "ITERM2_START" for e in n.elts):
             n_open += 1
@@ -132,13 +143,13 @@ def run(ck, m):
             rest = els[i + 1:]
             j = rest.index("ST") if "ST" in rest else -1
             ck.ob("R2", enclosing_stmt(n), j >= 0 and not any("\\n" in x or "ITERM2_START" in x for x in rest[:j]), f"an OSC 1337 opener is not closed by ST before the next newline/opener in {els}", stmt="iterm2 join: ITERM2_START ... ST")
-        if isinstance(n, ast.Call) and norm(n.func) == "buffer.write" and n.args and norm(n.args[0]) == "ITERM2_START":
+        if isinstance(n, ast.Call) and _is_bw(n) and n.args and norm(n.args[0]) == "ITERM2_START":
             n_open += 1
             blk = enclosing_stmt(n)._p.body
-            seq = [norm(s.value.args[0]) if isinstance(s, ast.Expr) and isinstance(s.value, ast.Call) and norm(s.value.func) == "buffer.write" and s.value.args else norm(s) for s in blk]
-            i = seq.index("ITERM2_START")
-            j = next((k for k in range(i + 1, len(seq)) if seq[k] == "ST"), -1)
-            ck.ob("R2", enclosing_stmt(n), j > i and not any("'\\n'" in x for x in seq[i + 1:j]), "the per-line OSC 1337 opener is not closed by ST before the newline", stmt="iterm2 LINES: write(ITERM2_START) ... write(ST)")
+            seq = [s.value.args[0] if isinstance(s, ast.Expr) and isinstance(s.value, ast.Call) and _is_bw(s.value) and s.value.args else s for s in blk]
+            i = next(k for k, x in enumerate(seq) if isinstance(x, ast.expr) and norm(x) == "ITERM2_START")
+            j = next((k for k in range(i + 1, len(seq)) if isinstance(seq[k], ast.expr) and _starts_with_st(trace(ir, seq[k]))), -1)
+            ck.ob("R2", enclosing_stmt(n), j > i and not any("'\\n'" in norm(x) for x in seq[i + 1:j]), "the per-line OSC 1337 opener is not closed by ST before the newline", stmt="iterm2 LINES: write(ITERM2_START) ... write(ST)")
     ck.expect(n_open >= 3, f"expected >= 3 ITERM2_START emissions, found {n_open}")
 
     # ---- R3 ----------------------------------------------------------------------------
